@@ -141,7 +141,13 @@ def compute_surface(F):
         part = "container" if nm.startswith(PC) and nm.split("::")[-1] in ("LITERAL_CHUNK", "DEFLATE_STREAM", "PNG_COMPRESSED", "COMPRESSED_WRAPPER_VERSION_1") else "stream"
         if nm.split("::")[-1] in ("COMPRESSED_WRAPPER_VERSION_1", "FILE_VERSION"):
             continue
-        S[part]["const:" + nm.replace(P, "")] = val
+        # keyed by VALUE, not by name: renaming a constant, or giving a literal a name, changes nothing that is stored
+        if isinstance(val, int):
+            S[part].setdefault("scalars", {})[str(val)] = sorted(set(S[part].get("scalars", {}).get(str(val), []) + [nm.replace(P, "")]))
+        elif str(val).startswith("sha256:"):
+            S[part].setdefault("tables", {}).setdefault(val, []).append(nm.replace(P, ""))
+        else:
+            S[part].setdefault("opaque-constants", {}).setdefault(val, []).append(nm.replace(P, ""))
     # ---- decision thresholds of the looping functions (V4) ------------------------------------------------
     sig_fns = [d for d in defs if d not in leaves and d not in DECIDED_ELSEWHERE]
     S["stream"]["thresholds"] = thresholds(F, sig_fns)
@@ -427,6 +433,13 @@ def run(ctx, rep):
                 rep.add(rule, "UNRECOGNISED-IDIOM:" + k, False, "", cv)
                 continue
             same = rv == cv
+            if k in ("scalars", "tables", "opaque-constants") and isinstance(rv, dict) and isinstance(cv, dict):
+                # compared by value only; the names are carried along for the report
+                same = sorted(rv) == sorted(cv)
+                if not same:
+                    gone = {x: rv[x] for x in rv if x not in cv}
+                    new = {x: cv[x] for x in cv if x not in rv}
+                    rv, cv = "values no longer referenced: %s" % gone, "new values: %s" % new
             if same:
                 rep.add(rule, k, True, "", "equals the reference")
             elif announced:
@@ -441,7 +454,7 @@ def run(ctx, rep):
                     rv, cv = "%s no longer present: %s" % (noun, gone), "new %s: %s" % (noun, new)
                 rep.add(rule, k, False, "", "%s the format surface while %s is unchanged: stored data of the reference build would be interpreted differently. reference=%s current=%s" % (
                     what, {"wrapper": "COMPRESSED_WRAPPER_VERSION_1", "file": "FILE_VERSION"}[GATE[part]], _short(rv), _short(cv)))
-    rep.floor("V2", "surface-items", n, 60)
+    rep.floor("V2", "surface-items", n, 50)
     rep.stats["surface"] = {"items": n, "closed_forms": sum(1 for k in cur["stream"] if k.startswith("fn:")), "consts": sum(1 for p in ("container", "stream") for k in cur[p] if k.startswith("const:"))}
 
 
